@@ -39,6 +39,8 @@ func gateClass(point string) string {
 		return "cpy"
 	case point == "stream.clone":
 		return "cln"
+	case point == "mem.gone":
+		return "env"
 	// httpgrpc streams: one class per goroutine of the model
 	case strings.HasPrefix(point, "http.send."):
 		return "snd"
